@@ -11,7 +11,10 @@
 (*           feed-forward models, of [kind, ins, outs, A, b, d]:           *)
 (*           kind "ivc": outputs keep their value;                         *)
 (*           otherwise  d[o] * y[o] = b[o] + SUM_i A[o][i] . in[i]         *)
-(*           (explicit components have d = 1, implicit ones any d # 0).    *)
+(*           (explicit components have d = 1, implicit ones any d # 0);    *)
+(*           kind "bil": two states of equal size with the residuals       *)
+(*             d[1] . y1 = rhs1   and   y1 . y2 = rhs2   (elementwise):      *)
+(*           its linearisation depends on the converged state.             *)
 (*   cyclic: BOOLEAN                                                       *)
 (* Variables are identified by 1-based positions in outs / ins.            *)
 (* Everything is exact (Rat.tla); index semantics come from NdIndex.tla.   *)
@@ -126,15 +129,39 @@ IsFixpoint(M, Y) ==
         IN \A ko \in 1..Len(c.outs) :
               IF c.kind = "ivc" THEN Y[c.outs[ko]] = M.outs[c.outs[ko]].val
               ELSE LET rhs == Rhs(M, c, Y, ko)
-                   IN \A r \in DOMAIN rhs : Mul(c.d[ko][r], Y[c.outs[ko]][r]) = rhs[r]
+                   IN \A r \in DOMAIN rhs :
+                         IF c.kind = "bil" /\ ko = 2
+                         THEN Mul(Y[c.outs[1]][r], Y[c.outs[2]][r]) = rhs[r]
+                         ELSE Mul(c.d[ko][r], Y[c.outs[ko]][r]) = rhs[r]
 
-IsTotalAll(M, dY) ==
+\* right-hand side of the linearised equation of row r of output ko: SUM_i A[ko][i][r] . d(in_i)   (no division)
+LinRhs(M, c, dY, ko, r, ncol) ==
+    LET RECURSIVE AccI(_, _)
+        AccI(ki, col) ==
+            IF ki > Len(c.ins) THEN Zero
+            ELSE LET ij == InJac(M, dY, c.ins[ki])
+                     a == c.A[ko][ki][r]
+                     RECURSIVE AccK(_)
+                     AccK(k) == IF k > Len(a) THEN Zero
+                                ELSE IF a[k] = Zero THEN AccK(k + 1)
+                                ELSE Add(Mul(a[k], ij[k][col]), AccK(k + 1))
+                 IN Add(AccK(1), AccI(ki + 1, col))
+    IN [col \in 1..ncol |-> AccI(1, col)]
+
+\* dY is the derivative of the converged state Y with respect to the independent scalars
+IsTotalAll(M, Y, dY) ==
     LET nc == NCols(M)
     IN \A k \in 1..Len(M.comps) :
           LET c == M.comps[k]
           IN \A ko \in 1..Len(c.outs) :
                 IF c.kind = "ivc" THEN dY[c.outs[ko]] = InitDY(M)[c.outs[ko]]
-                ELSE \A r \in 1..OSize(M, c.outs[ko]) : dY[c.outs[ko]][r] = JRow(M, c, dY, ko, r, nc)
+                ELSE \A r \in 1..OSize(M, c.outs[ko]) :
+                        LET rhs == LinRhs(M, c, dY, ko, r, nc)
+                        IN IF c.kind = "bil" /\ ko = 2
+                           THEN \A col \in 1..nc :        \* y2 dy1 + y1 dy2 = A2 d(in)
+                                   Add(Mul(Y[c.outs[2]][r], dY[c.outs[1]][r][col]),
+                                       Mul(Y[c.outs[1]][r], dY[c.outs[2]][r][col])) = rhs[col]
+                           ELSE \A col \in 1..nc : Mul(c.d[ko][r], dY[c.outs[ko]][r][col]) = rhs[col]
 
 \* all inputs of the model given output values
 AllInputs(M, Y) == [i \in 1..Len(M.ins) |-> InVal(M, Y, i)]
@@ -149,6 +176,8 @@ OutEdges(M) ==
                         ko \in {q \in 1..Len(M.comps[c].outs) : NonZeroBlock(M.comps[c].A[q][ki])}}
                   : ki \in 1..Len(M.comps[c].ins)}
            : c \in {k \in 1..Len(M.comps) : M.comps[k].kind # "ivc"}}
+    \cup {<<M.comps[c].outs[1], M.comps[c].outs[2]>> : c \in {k \in 1..Len(M.comps) : M.comps[k].kind = "bil"}}
+         \* the second residual of a bilinear component depends on its first state
 RECURSIVE ReachFrom(_, _)
 ReachFrom(E, S) == LET N == S \cup {e[2] : e \in {x \in E : x[1] \in S}} IN IF N = S THEN S ELSE ReachFrom(E, N)
 Reach(M, S) == ReachFrom(OutEdges(M), S)
